@@ -5,9 +5,11 @@ CONSTANTS
   PruneHidesCommitError = TRUE
   MaxCrashes = 2
   Kinds = {"plain", "tx", "idupd"}
-  ForkKinds = {"plain", "idupd"}
+  ForkKinds = {"idupd"}
   ResetDepths = {1, 2}
   ForkLens = {1, 2}
+  FsKinds = {"plain", "idupd"}
+  FsLens = {2}
   PreHeads = {2, 6}
   ExportOn = TRUE
 INIT MInit
